@@ -7,6 +7,11 @@ open Specter.Util
 structure DState where
   cfg : Cfg
   st : State
+  keys : List String := []     -- every KV key (normalised hostname) a validation has touched in this case
+  /-- what the implementation itself reported last as the binding stored under each key ("id:tok" / "-").
+  The spec oracle judges against this observed history, not against the model's state, so that it stays
+  meaningful after the model and the code have parted (a DIFF on an earlier line). -/
+  obs : List (String × String) := []
 
 def parseClient (s : String) : Option Client :=
   match s.splitOn ":" with
@@ -28,9 +33,33 @@ def resStr : Res → String
 /-- spec: the zone itself or a subdomain of it -/
 def zoneOrSub (h z : String) : Bool := h == z || h.endsWith ("." ++ z)
 
-/-- spec: hostnames that must always be refused -/
+/-- spec: hostnames that must always be refused. A hostname is a DNS name, so the comparison with the
+zones is ASCII-case-insensitive (`fold`): `x.HELLO.com` lies under the apex `hello.com`. -/
 def restricted (cfg : Cfg) (h : String) : Bool :=
-  zoneOrSub h cfg.apex || zoneOrSub h cfg.acme || decide ((h.toList.filter (· == '.')).length < 2)
+  let n := fold h
+  zoneOrSub n (fold cfg.apex) || zoneOrSub n (fold cfg.acme) || decide ((n.toList.filter (· == '.')).length < 2)
+
+/-- spec + model: the clients that own the DNS name of `h` (any spelling of it among `keys`) in `st` -/
+def nameOwners (st : State) (keys : List String) (h : String) : List Client :=
+  ((keys.filter (sameName · h)).filterMap st.bound).eraseDups
+
+def ownersStr (l : List Client) : String :=
+  if l.isEmpty then "-" else ",".intercalate ((l.map clientStr).mergeSort (fun a b => decide (a ≤ b)))
+
+def obsGet (obs : List (String × String)) (h : String) : String :=
+  ((obs.find? (·.1 == h)).map (·.2)).getD "-"
+
+def obsSet (obs : List (String × String)) (h v : String) : List (String × String) :=
+  (h, v) :: obs.filter (·.1 != h)
+
+/-- spec: owners the implementation reported for any spelling of the DNS name of `h` -/
+def obsOwners (obs : List (String × String)) (h : String) : List String :=
+  ((obs.filter (fun kv => sameName kv.1 h && kv.2 != "-")).map (·.2)).eraseDups
+
+def addKey (keys : List String) (h : Option String) : List String :=
+  match h with
+  | some h => if keys.contains h then keys else h :: keys
+  | none => keys
 
 def parseNorm (s : String) : Option (Option String) :=
   if s = "!" then some none else (hexToAscii s).map some
@@ -49,33 +78,47 @@ def parseReq (cl norm pow cname target flags : String) : Option Req :=
 
 def dstep (d : DState) (toks : List String) (rhs : String) : DState × Verdict :=
   match toks with
-  | ["reset"] => (⟨d.cfg, State.init⟩, .ok)
+  | ["reset"] => (⟨d.cfg, State.init, [], []⟩, .ok)
   | ["reset", apex, acme] =>
     match hexToAscii apex, hexToAscii acme with
-    | some a, some z => (⟨⟨a, z⟩, State.init⟩, .ok)
+    | some a, some z => (⟨⟨a, z⟩, State.init, [], []⟩, .ok)
     | _, _ => (d, .bad "reset args")
   | ["validate", cl, _raw, norm, pow, cname, target, flags] =>
     match parseReq cl norm pow cname target flags, rhs.splitOn " " with
-    | some r, [res, asked, kvr, bound] =>
+    | some r, [res, asked, kvr, bound, dns] =>
       let (st', o) := validate d.cfg d.st r
-      let pre := r.norm.bind d.st.bound
+      let keys := addKey d.keys r.norm
+      -- model output
       let mb := boundStr (r.norm.bind st'.bound)
-      let m := s!"{resStr o.res} {(o.asked.map asciiHex).getD "-"} {o.kvReads} {mb}"
+      let mdns := ownersStr ((r.norm.map (nameOwners st' keys)).getD [])
+      let m := s!"{resStr o.res} {(o.asked.map asciiHex).getD "-"} {o.kvReads} {mb} {mdns}"
+      -- spec oracle: binding of this key / owners of this DNS name (all spellings) before the request, as observed
+      let pre : String := (r.norm.map (obsGet d.obs)).getD "-"
+      let preOwners := (r.norm.map (obsOwners d.obs)).getD []
       let callerS := clientStr r.caller
+      let obs' := match r.norm with | some h => obsSet d.obs h bound | none => d.obs
+      let d' : DState := ⟨d.cfg, st', keys, obs'⟩
       let bad : Option String :=
         if res = "ok" ∧ r.norm.isNone then some "accepted a hostname that does not normalise"
         else if res = "ok" ∧ !r.powOk then some "accepted without a valid proof of work"
         else if res = "ok" ∧ (r.norm.map (restricted d.cfg)).getD false then some "accepted an apex / acme-zone / bare domain"
-        else if res = "ok" ∧ pre ≠ some r.caller ∧ r.cname ≠ some r.target then
+        else if res = "ok" ∧ pre ≠ callerS ∧ r.cname ≠ some r.target then
           some "bound without the challenge CNAME pointing at the caller's target"
-        else if (match pre with | some c => decide (c ≠ r.caller ∧ (res = "ok" ∨ bound ≠ clientStr c)) | none => false) then
+        else if pre ≠ "-" ∧ pre ≠ callerS ∧ (res = "ok" ∨ bound ≠ pre) then
           some "hostname bound to one client was validated / rebound by another"
-        else if bound ≠ boundStr pre ∧ (res ≠ "ok" ∨ bound ≠ callerS) then some "binding changed without a successful validation by the new owner"
+        else if res = "ok" ∧ preOwners.any (· ≠ callerS) then
+          some "hostname (DNS name, another spelling) bound to one client was validated by another"
+        else if bound ≠ pre ∧ (res ≠ "ok" ∨ bound ≠ callerS) then some "binding changed without a successful validation by the new owner"
         else if res = "ok" ∧ bound ≠ callerS then some "validated but not bound to the caller"
+        else if (dns.splitOn ",").length > 1 then some "one hostname (DNS name) is bound to more than one client"
         else none
       match bad with
-      | some why => (⟨d.cfg, st'⟩, .spec why)
-      | none => if m ≠ s!"{res} {asked} {kvr} {bound}" then (⟨d.cfg, st'⟩, .diff m) else (⟨d.cfg, st'⟩, .ok)
+      | some why => (d', .spec why)
+      | none =>
+        if m ≠ s!"{res} {asked} {kvr} {bound} {dns}" then (d', .diff m)
+        else if (r.norm.map (fun h => !canonical h)).getD false then
+          (d', .diff "Normalize returned a non-canonical spelling (fold h ≠ h): hypothesis OpCanonical of the *_any_spelling theorems fails")
+        else (d', .ok)
     | _, _ => (d, .bad "validate args")
   | ["instr", cl, _raw, norm, pow, target, gf] =>
     match parseReq cl norm pow "!" target (gf ++ "0"), rhs.splitOn " " with
@@ -85,21 +128,25 @@ def dstep (d : DState) (toks : List String) (rhs : String) : DState × Verdict :
       if res = "ok" ∧ (r.norm.isNone ∨ !r.powOk ∨ (r.norm.map (restricted d.cfg)).getD false) then
         (d, .spec "instructions handed out for a refused hostname / without proof of work")
       else if res = "ok" ∧ content ≠ asciiHex r.target then (d, .spec "instruction target is not the caller's token target")
-      else if m ≠ s!"{res} {name} {content}" then (d, .diff m) else (d, .ok)
+      else if m ≠ s!"{res} {name} {content}" then (d, .diff m)
+      else if (r.norm.map (fun h => !canonical h)).getD false then
+        (d, .diff "Normalize returned a non-canonical spelling (fold h ≠ h): hypothesis OpCanonical of the *_any_spelling theorems fails")
+      else (d, .ok)
     | _, _ => (d, .bad "instr args")
   | ["release", cl, host] =>
     match parseClient cl, hexToAscii host, rhs.splitOn " " with
     | some c, some h, [res, bound] =>
       let (st', mr) := release d.st c h
       let m := s!"{resStr mr} {boundStr (st'.bound h)}"
-      let pre := d.st.bound h
-      let stranger : Bool := match pre with | some o => decide (o.token ≠ c.token ∧ bound ≠ clientStr o) | none => false
-      if stranger then (⟨d.cfg, st'⟩, .spec "binding removed by a client that does not hold the owner's token")
-      else if bound ≠ "-" ∧ bound ≠ boundStr pre then (⟨d.cfg, st'⟩, .spec "release created / changed a binding")
-      else if m ≠ s!"{res} {bound}" then (⟨d.cfg, st'⟩, .diff m) else (⟨d.cfg, st'⟩, .ok)
+      let pre := obsGet d.obs h
+      let d' : DState := ⟨d.cfg, st', d.keys, obsSet d.obs h bound⟩
+      let stranger : Bool := match parseClient pre with | some o => decide (o.token ≠ c.token ∧ bound ≠ pre) | none => false
+      if stranger then (d', .spec "binding removed by a client that does not hold the owner's token")
+      else if bound ≠ "-" ∧ bound ≠ pre then (d', .spec "release created / changed a binding")
+      else if m ≠ s!"{res} {bound}" then (d', .diff m) else (d', .ok)
     | _, _, _ => (d, .bad "release args")
   | _ => (d, .bad "unknown op")
 
-def main : IO Unit := runLoop ⟨⟨"", ""⟩, State.init⟩ dstep
+def main : IO Unit := runLoop ⟨⟨"", ""⟩, State.init, [], []⟩ dstep
 
 end Specter.C29
